@@ -9,6 +9,11 @@ one bus (`sysStep`), and `Value.Pull`'s forwarder exactly as coded with its resp
 state right after subscribing (`vstepF`, `VCfg.subscribed`).  The driver executes these definitions
 (ops `vrun`, `crun`); the harness ties them to the real `Value` / `Collection` end to end.
 
+Every Collection subscriber carries the transform of its Pull forwarder (`Sub.tr`): the identity, or
+`includeChange f` for `WithInclude f` (Include.lean) — the theorems are stated for any transform `T` and view
+map `R` with `Sim T R`, and `C09_include_sim` proves it for both; `C09_seed_list` (Seed.lean) discharges the
+seed hypotheses for the seed list the code builds.
+
 Quantifiers: all well-formed sent streams (any stream where stated), all interleavings of the moves
 (`send`/`recv`, `take`, `hand`, `deliver` of every subscriber), any number and mix of subscribers, any
 equivalence `E` and filter `F` (arbitrary functions), any id and message types.
